@@ -185,7 +185,7 @@ Theorem C14_vsib_path_never_stuck : forall x64 inst_id v,
 Proof. exact vsib_path_never_stuck. Qed.
 Print Assumptions C14_vsib_path_never_stuck.
 
-(* the hypothesis "index type admitted by the validator" is needed: kMask (16) as index type reads past ll_by_reg_type_table *)
+(* the hypothesis "index type allowed by the validator" is needed: kMask (16) as index type reads past ll_by_reg_type_table *)
 Theorem C14_vsib_unvalidated_refuted : exists x64 v,
   0 <= m_itype (v_mem v) <= x86c_mem_index_type_max /\ x86_vgather_encode x64 v = MStuck.
 Proof. exact vsib_unvalidated_refuted. Qed.
@@ -194,6 +194,12 @@ Print Assumptions C14_vsib_unvalidated_refuted.
 Theorem C14_vsib_cmd_wf : forall a inst_id v c, vsib_cmd a inst_id v = Some c -> wf_cmd c.
 Proof. exact vsib_cmd_wf. Qed.
 Print Assumptions C14_vsib_cmd_wf.
+
+(* ---- push / pop of a segment register: C13's validator model, the id guard, opcode_push/pop_sreg_table and opcode_mm_table
+   reads instrumented; for EVERY register id ---- *)
+Theorem C14_pushpop_never_stuck : forall x64 is_pop inst_id id, 0 <= id -> x86_pushpop_sreg x64 is_pop inst_id id <> MStuck.
+Proof. exact pushpop_never_stuck. Qed.
+Print Assumptions C14_pushpop_never_stuck.
 
 (* ---- bounds of the table look-ups indexed by operand fields (tables and index sets dumped from the repository) ---- *)
 Theorem C14_lookups_in_range : forall s, In s sites -> forall i, In i (site_idx s) ->
@@ -261,3 +267,48 @@ Theorem C14_size_op_reads_vectors : forall rt et,
   exists i, size_op_read rt et = Some i.
 Proof. exact size_op_reads_vectors. Qed.
 Print Assumptions C14_size_op_reads_vectors.
+
+(* a64 load / store addressing (kEncodingBaseLdSt + the ldur/stur fallback): table reads in range for every instruction
+   id, the whole path never reads out of bounds, and what is accepted is encodable *)
+Theorem C14_a64_ldst_row_never_stuck : forall inst_id, 0 <= inst_id -> a64_ldst_row inst_id <> RStuck.
+Proof. exact a64_ldst_row_never_stuck. Qed.
+Print Assumptions C14_a64_ldst_row_never_stuck.
+
+Theorem C14_a64_ldst_never_stuck : forall inst_id m,
+  0 <= inst_id -> 0 <= a_shiftop m <= a64c_mem_shift_op_max -> a64_ldst inst_id m <> MStuck.
+Proof. exact a64_ldst_never_stuck. Qed.
+Print Assumptions C14_a64_ldst_never_stuck.
+
+Theorem C14_a64_ldst_accepted_encodable : forall inst_id m n d,
+  a64_ldst inst_id m = MOk n d ->
+  n = 4 /\ d = 0 /\ a_btype m = a64c_reg_type_gp64 /\ a_bid m <= 31 /\
+  (a_rid m < 31 \/ a_rid m = a64c_zr) /\ (a_itype m <> 0 -> a_iid m <= 30 \/ a_iid m = a64c_id_zr).
+Proof. exact a64_ldst_accepted_encodable. Qed.
+Print Assumptions C14_a64_ldst_accepted_encodable.
+
+(* x86 shift / rotate of a register by an immediate (kEncodingX86Rot -> EmitX86R): every table read in range for every
+   instruction id, register type / id and operand size, with and without the validator in front *)
+Theorem C14_shift_encode_never_stuck : forall x64 long inst_id f, 0 <= inst_id -> x86_shift_imm_encode x64 long inst_id f <> MStuck.
+Proof. exact shift_encode_never_stuck. Qed.
+Print Assumptions C14_shift_encode_never_stuck.
+
+Theorem C14_shift_never_stuck : forall x64 long inst_id f, 0 <= inst_id -> x86_shift_imm x64 long inst_id f <> MStuck.
+Proof. exact shift_never_stuck. Qed.
+Print Assumptions C14_shift_never_stuck.
+
+(* EVEX / VEX + VSIB, the two-operand gather with a mask register (ids >= 16, 512-bit, compressed disp8): no table read
+   out of bounds — under the explicit index-type hypothesis, and for the validated instruction without it *)
+Theorem C14_vsib2_encode_never_stuck : forall x64 kid v,
+  0 <= m_btype (v_mem v) <= x86c_mem_base_type_max -> 0 <= m_itype (v_mem v) <= x86c_mem_index_type_max ->
+  0 <= m_seg (v_mem v) <= x86c_mem_segment_max -> 0 <= v_dsize v <= x86c_size_max ->
+  index_type_allowed (m_itype (v_mem v)) ->
+  x86_vgather2_encode x64 kid v <> MStuck.
+Proof. exact vsib2_encode_never_stuck. Qed.
+Print Assumptions C14_vsib2_encode_never_stuck.
+
+Theorem C14_vsib2_path_never_stuck : forall x64 inst_id etype kid v,
+  0 <= m_btype (v_mem v) <= x86c_mem_base_type_max -> 0 <= m_itype (v_mem v) <= x86c_mem_index_type_max ->
+  0 <= m_seg (v_mem v) <= x86c_mem_segment_max -> 0 <= v_dsize v <= x86c_size_max ->
+  x86_vgather2 x64 inst_id etype kid v <> MStuck.
+Proof. exact vsib2_path_never_stuck. Qed.
+Print Assumptions C14_vsib2_path_never_stuck.
